@@ -30,6 +30,7 @@ type SpecEnv struct {
 	entry    map[string]string // state at loop entry (loop clauses)
 	noLocals bool
 	override map[string]string // state name -> term, inside within(snapshot, Store, expr)
+	iter     map[string]string // state at the head of the innermost enclosing loop in this iteration (call-site assertions)
 }
 
 func (env *SpecEnv) fail(format string, a ...interface{}) {
@@ -138,6 +139,17 @@ func (env *SpecEnv) expr(x *SExpr) SV {
 		return SV{t: g.StrLit(x.S), sort: "Str", gt: types.Typ[types.String]}
 	case "id":
 		return env.ident(x.S)
+	case "iter":
+		// state at the start of the current iteration of the innermost enclosing loop (call-site assertions inside loops)
+		if env.iter == nil {
+			env.fail("iter(): only available in call-site assertions inside a loop")
+			return env.expr(x.Args[0])
+		}
+		saveCur, saveOld, saveIn := env.cur, env.old, env.inOld
+		env.cur, env.inOld = env.iter, false
+		r := env.expr(x.Args[0])
+		env.cur, env.old, env.inOld = saveCur, saveOld, saveIn
+		return r
 	case "entry":
 		// state when the enclosing loop was entered (loop clauses only)
 		if env.entry == nil {
